@@ -18,4 +18,55 @@ def k1_replace_inv(prop, repo, verif, workdir, tier, seed, log):
     if tier == "thorough":
         hs.append(("sorted_replacement_contract_n3", "sorted_replacement.stable_key_order(n=3)"))
         bound = bound.replace("n <= 2", "n <= 3 for sorted_replacement, n <= 2 otherwise")
-    return [K.run_set("replace_inv", prop, repo, verif, workdir, mods, hs, log, bounded=bound, jobs=8, timeout=1500 if tier == "thorough" else 600)]
+    st = K.run_set("replace_inv", prop, repo, verif, workdir, mods, hs, log, bounded=bound, jobs=8, timeout=1500 if tier == "thorough" else 600, extra=("-Z", "stubbing"))
+    dependency_contracts(repo, st)
+    return [st]
+
+
+STUBBED_UNSTABLE = {"sorted_unstable_by", "sorted_unstable_by_key", "sorted_unstable"}
+
+
+def dependency_contracts(repo, st):
+    """the order contract of sorted_replacement rests on the callee contract of the sort it calls: the stable family is
+    stable for every length (documented contract; real body run within the bound), itertools' unstable family enters
+    the harnesses through contract stubs; any other *unstable* sort has no contract stub here -> undecided."""
+    import re
+    src = open(os.path.join(repo, "src", "replace_source.rs")).read()
+    found = []
+    for fn in ("sort_replacement", "sorted_replacement"):
+        m = re.search(r"fn\s+" + fn + r"\b[^{]*\{", src)
+        if not m:
+            continue
+        depth, j = 1, m.end()
+        while j < len(src) and depth:
+            depth += src[j] == "{"
+            depth -= src[j] == "}"
+            j += 1
+        body = src[m.end():j]
+        for c in re.findall(r"\.\s*(\w*(?:sort|select_nth)\w*)\s*(?:::<[^>]*>)?\(", body):
+            found.append((fn, c))
+    st.details["sort_dependencies"] = [{"in": a, "calls": b, "contract": ("stable for all n (documented); real body, bounded n" if "unstable" not in b else
+                                        ("sorted permutation, tie order unspecified (contract stub)" if b in STUBBED_UNSTABLE else "no contract stub"))} for a, b in found]
+    for a, b in found:
+        if "unstable" in b and b not in STUBBED_UNSTABLE:
+            st.undecided.append(f"replace_inv/{a}: calls `{b}`, whose contract gives no tie order and for which Kani accepts no contract stub here; "
+                                "the bounded run of its real body cannot stand for all lengths")
+
+
+def k2_eq_hash(prop, repo, verif, workdir, tier, seed, log):
+    kd = os.path.join(verif, "kani")
+    mods = {"src/raw_source.rs": [kd + "/eq_hash_raw.rs"], "src/original_source.rs": [kd + "/eq_hash_original.rs"], "src/replace_source.rs": [kd + "/eq_hash_replace.rs"]}
+    hs = [("raw_string_eq_hash_clone", "RawStringSource.eq_hash_clone=function_of_value"),
+          ("raw_buffer_eq_hash_clone", "RawBufferSource.eq_hash_clone=function_of_value"),
+          ("raw_source_eq_hash_clone_buf_buf_same", "RawSource.eq_hash_clone=function_of_value(Buffer,Buffer equal)"),
+          ("raw_source_eq_hash_clone_buf_buf_diff", "RawSource.eq_hash_clone=function_of_value(Buffer,Buffer unequal)"),
+          ("raw_source_eq_hash_clone_str_static", "RawSource.eq_hash_clone=function_of_value(String owned,static)"),
+          ("raw_source_eq_hash_clone_buf_str", "RawSource.eq_hash_clone=function_of_value(Buffer,String)"),
+          ("original_eq_hash_clone", "OriginalSource.eq_hash_clone=function_of_value_and_name"),
+          ("replace_eq_ignores_cache", "ReplaceSource.eq_clone=function_of_replacements(any cache state)"),
+          ("replace_hash_cold_cache_n1", "ReplaceSource.hash=function_of_replacements(cold cache, n=1)"),
+          ("clone_preserves_inv_n2", "ReplaceSource.clone.preserves_lazy_sort_invariant(n=2)")]
+    mods["src/replace_source.rs"].append(kd + "/replace_inv.rs")
+    bound = ("bounded: exhaustive in cache histories (symbolic observer calls per operand, arbitrary lazy-sort cache state), "
+             "sampled in data (fixed catalogue: ASCII, multi-byte, invalid UTF-8, equal/unequal pairs)")
+    return [K.run_set("eq_hash", prop, repo, verif, workdir, mods, hs, log, bounded=bound, jobs=10, timeout=600, extra=("-Z", "stubbing"))]
